@@ -281,6 +281,20 @@ def _decimal_ok(it):
 NAMES_PLAIN = ['Ann', 'Bob', 'Cy', 'Dee', 'Eve', 'Flo', 'Gus', 'Hal']
 NAMES_RICH = ['J. Smith', "O'Neil, Pat", 'Jean-Luc P.', 'A B', 'A. B.', 'Ab', 'al', 'Émile Ÿ', 'Dr. X (ind.)', 'x=y', 'A;B',
               '漢字 名', 'a "quoted" one', '1', '0', 'John  Doe', 'M.C. Hammer', 'van der Berg', 'Ann', 'Bob B. Bob', 'Q']
+# double quotes and hash signs in every order (BLT only: the STV header form cannot carry '#')
+NAMES_QUOTE_HASH = ['Ann "#1" Lee', 'Bob "the #2" Ray', '#1 "Al"', 'C# "sharp"', 'No. #5', '"', '#', '"#', '#"', '"#"', '#"#',
+                    'x" # y', 'a # b " c # d " e', '""', '##', 'tail"', '"head', 'tail#', ' "#" ']
+TITLES_QUOTE_HASH = ['Board "East" seat #3', '#3 "East"', 'with # hash', '"q"', 'a "b" # c "d" # e', '"#', '#"', 'Ward #3']
+
+
+def quote_hash_order(text):
+    """which of the two orders of a double quote and a hash sign occur in the text"""
+    out = set()
+    if '"' in text and '#' in text[text.index('"'):]:
+        out.add('quote_then_hash')
+    if '#' in text and '"' in text[text.index('#'):]:
+        out.add('hash_then_quote')
+    return out
 
 
 def gen_weight(rng, kinds=('int', 'dec', 'frac')):
@@ -294,7 +308,7 @@ def gen_weight(rng, kinds=('int', 'dec', 'frac')):
 
 def gen_doc(rng, names=None, max_c=6, person=None, weights=('int', 'dec', 'frac'), title=None, withdrawn=True):
     n = rng.randint(1, max_c) if rng.random() < 0.95 else 0
-    pool = list(names or (NAMES_PLAIN + NAMES_RICH))
+    pool = list(names or (NAMES_PLAIN + NAMES_RICH + NAMES_QUOTE_HASH))
     if person is None:
         person = rng.random() < 0.6
     all_person = person and rng.random() < 0.5
@@ -318,7 +332,7 @@ def gen_doc(rng, names=None, max_c=6, person=None, weights=('int', 'dec', 'frac'
         seen.add(tuple(idx))
         ballots.append([idx, gen_weight(rng, weights)])
     if title is None:
-        title = rng.choice([None, None, 'Council 2020', 'T', 'with # hash', ' padded ', '"q"', ''])
+        title = rng.choice([None, None, 'Council 2020', 'T', ' padded ', ''] + TITLES_QUOTE_HASH)
     elif title == '-':
         title = None
     return {'seats': rng.randint(0, max(n, 1)), 'cands': cands, 'ballots': ballots, 'title': title}
